@@ -125,6 +125,9 @@ func (o *oracles) finalC11(final snap) {
 			}
 			o.monObserve("state-machine", sm, &r.v.VRV, true)
 		}
+		// A jump-ahead view is a view of its round too: never older or smaller than what the state machine was
+		// already given for that round.
+		o.monObserve("state-machine", sm, r.v.JumpAheadRoundView, false)
 	}
 	if !final.ok {
 		return
